@@ -17,6 +17,10 @@
 //	stopch_in_select Run (helpers included) contains a select with a `case <-r.lc.StopCh():` clause
 //	lc_only_so      the package's non-test files use the lc field nowhere else
 //	                (exactly one Started call, one Stop call, >=1 StopCh call, nothing more)
+//	done_only_deferred the identifier d bound by Started() occurs in Run exactly twice: its
+//	                binding and `defer d()` - no early d(), no `go d()`, not passed to a helper,
+//	                not captured by a closure, not reassigned (the skeleton's LDone happens only
+//	                when Run returns)
 //
 // usage: c07shape -repo /repo [-o coq/gen/RunnerShape.v]     (prints the file to stdout without -o)
 package main
@@ -36,6 +40,7 @@ import (
 type shape struct {
 	name                                                            string
 	startedFirst, deferDone, stopIsLcStop, stopChInSelect, lcOnlySo bool
+	doneOnlyDeferred                                                bool
 	detail                                                          []string
 }
 
@@ -340,6 +345,17 @@ func analyse(repo, name, dir string) shape {
 			}
 		}
 	}
+	if sh.deferDone {
+		n := 0
+		ast.Inspect(run.Body, func(x ast.Node) bool {
+			if id, ok := x.(*ast.Ident); ok && id.Name == doneName {
+				n++
+			}
+			return true
+		})
+		sh.doneOnlyDeferred = n == 2
+		sh.detail = append(sh.detail, fmt.Sprintf("%s occurs %d times in Run", doneName, n))
+	}
 	// Stop: [log-only]* ; r.lc.Stop() ; [log-only]*   (helper methods inlined)
 	rest := flat(stop.Body.List, ms, 3)
 	if len(rest) == 1 {
@@ -434,16 +450,16 @@ func main() {
 	allok := true
 	for i, r := range runners {
 		sh := analyse(*repo, r.name, r.dir)
-		ok := sh.startedFirst && sh.deferDone && sh.stopIsLcStop && sh.stopChInSelect && sh.lcOnlySo
+		ok := sh.startedFirst && sh.deferDone && sh.stopIsLcStop && sh.stopChInSelect && sh.lcOnlySo && sh.doneOnlyDeferred
 		allok = allok && ok
 		sep := ";"
 		if i == len(runners)-1 {
 			sep = ""
 		}
-		fmt.Fprintf(&sb, "  (* %s *)\n  mkShape \"%s\" %s %s %s %s %s%s\n", strings.Join(sh.detail, "; "), sh.name,
-			b(sh.startedFirst), b(sh.deferDone), b(sh.stopIsLcStop), b(sh.stopChInSelect), b(sh.lcOnlySo), sep)
-		fmt.Fprintf(os.Stderr, "shape %s started_first=%v defer_done=%v stop_is_lc_stop=%v stopch_in_select=%v lc_only_so=%v\n",
-			sh.name, sh.startedFirst, sh.deferDone, sh.stopIsLcStop, sh.stopChInSelect, sh.lcOnlySo)
+		fmt.Fprintf(&sb, "  (* %s *)\n  mkShape \"%s\" %s %s %s %s %s %s%s\n", strings.Join(sh.detail, "; "), sh.name,
+			b(sh.startedFirst), b(sh.deferDone), b(sh.stopIsLcStop), b(sh.stopChInSelect), b(sh.lcOnlySo), b(sh.doneOnlyDeferred), sep)
+		fmt.Fprintf(os.Stderr, "shape %s started_first=%v defer_done=%v stop_is_lc_stop=%v stopch_in_select=%v lc_only_so=%v done_only_deferred=%v\n",
+			sh.name, sh.startedFirst, sh.deferDone, sh.stopIsLcStop, sh.stopChInSelect, sh.lcOnlySo, sh.doneOnlyDeferred)
 	}
 	sb.WriteString("].\n")
 	txt := sb.String()
